@@ -60,6 +60,18 @@ def takeCLink (toks : Toks) : Option (CLink × Toks) := do
   let (vel, toks) ← takeV3 toks
   pure (⟨c, p, o, pos, vel⟩, toks)
 
+def takeLof (toks : Toks) : Option (LofSpec × Toks) := do
+  let ((c, p), toks) ← takePair toks
+  let ((tnw, g), toks) ← takePair toks
+  let (pos, toks) ← takeV3 toks
+  let (vel, toks) ← takeV3 toks
+  let (own, toks) ← takeNat toks
+  if own == 1 then
+    let (D, toks) ← takeDate toks
+    pure (⟨c, p, tnw == 1, g, pos, vel, some D⟩, toks)
+  else
+    pure (⟨c, p, tnw == 1, g, pos, vel, none⟩, toks)
+
 def takeRow (k : Nat) (toks : Toks) : Option (List Float × Toks) := takeFloats k toks
 
 def takeBlock (toks : Toks) : Option ((Nat × Nat × List (List Float)) × Toks) := do
@@ -83,6 +95,8 @@ def conv (toks : Toks) : Option String := do
   let (D, toks) ← takeDate toks
   let (h, toks) ← takeCounted takePair toks
   let (ex, toks) ← takeCounted takeExtra toks
+  let (ls, toks) ← takeCounted takeLof toks
+  let ex ← resolveLofs D names (Generated.orientHist ++ h) ex ls
   let ((a, b), _) ← takePair toks
   match orientConvert D names (Generated.orientHist ++ h) ex a b with
   | some m => pure (fsToStr m.toList)
@@ -92,6 +106,8 @@ def xf (toks : Toks) : Option String := do
   let (D, toks) ← takeDate toks
   let (h, toks) ← takeCounted takePair toks
   let (ex, toks) ← takeCounted takeExtra toks
+  let (ls, toks) ← takeCounted takeLof toks
+  let ex ← resolveLofs D names (Generated.orientHist ++ h) ex ls
   let (ch, toks) ← takeCounted takePair toks
   let (cl, toks) ← takeCounted takeCLink toks
   let ((oa, ca), toks) ← takePair toks
@@ -103,27 +119,39 @@ def xf (toks : Toks) : Option String := do
   | none => pure "value-error"
 
 def takeCall (h : List (Nat × Nat)) (ex : List Extra) (toks : Toks) : Option (Call × Toks) := do
-  let (text, toks) ← takeNat toks
   let (D, toks) ← takeDate toks
   let ((a, b), toks) ← takePair toks
-  pure (⟨text, D, Generated.orientHist ++ h, ex, a, b⟩, toks)
+  pure (⟨D, Generated.orientHist ++ h, ex, a, b⟩, toks)
 
-/-- a whole history of `Orientation.convert_to` requests in one line: the `_nutation` memo is threaded through the calls -/
+/-- a whole history of `Orientation.convert_to` requests in one line: the `_nutation_series` memo is threaded through the calls;
+the nutation fields of the date floats are ignored (filled from the series on the rows of tab5.1 given first) -/
 def seq (toks : Toks) : Option String := do
+  let (rows, toks) ← takeCounted (takeRow 9) toks
   let (h, toks) ← takeCounted takePair toks
   let (ex, toks) ← takeCounted takeExtra toks
   let (calls, _) ← takeCounted (takeCall h ex) toks
-  let rs := sessionRun names [] calls
+  let rs := sessionRun names rows [] calls
   pure (" ".intercalate (rs.map (fun r => match r with | some m => fsToStr m.toList | none => "E")))
 
+/-- `iau1980.nutation(date)` with `eop_correction=True`: series on the rows given + the tail translated from the source -/
+def nutc (toks : Toks) : Option String := do
+  let (rows, toks) ← takeCounted (takeRow 9) toks
+  let (fs, _) ← takeFloats 3 toks
+  match fs with
+  | [ttt, dpsi, deps] =>
+    let n := nutCorrected (nutOf rows (ttt, rows.length)) dpsi deps
+    pure (fsToStr (nutation80 n.eps n.dpsi n.deps).toList)
+  | _ => none
+
 /--
-* `c02seq <nH> (a b)… <nE> (child parent 9 floats)… <ncalls> (<text id> <18 date floats> <a> <b>)…` → per call 18 floats or `E`
-  (the process starts with an empty `_nutation` memo; text ids identify `repr(date)`)
+* `c02seq <nrows> <a1..a5 A B C D>… <nH> (a b)… <nE> (child parent 9 floats)… <ncalls> (<18 date floats> <a> <b>)…` → per call 18 floats or `E`
+  (the process starts with an empty `_nutation_series` memo)
+* `c02nutc <nrows> rows… <ttt> <dpsi mas> <deps mas>` → 9 floats: `iau1980.nutation(date)` with the EOP corrections
 * `c02ser80 <n> <ttt>… <nrows> <a1..a5 A B C D>…`                → n × (ε̄, Δψ, Δε) in degrees
 * `c02ser10 <n> <ttt>… <nblocks> (<tab> <j> <nrows> <16 floats>…)…` → n × (X, Y, s+XY/2) in arcsec
 * `c02lof <tnw 0|1> <p> <v>` → 9 floats;  `c02topo <lat> <lon>` → 9;  `c02geod <lat> <lon> <alt>` → 6
-* `c02conv <18 date floats> <nH> (a b)… <nE> (child parent 9 floats)… <a> <b>` → 18 floats (r block, b block)
-* `c02xf   <18 date floats> <nH> … <nE> … <nCH> (a b)… <nCL> (child parent ori 6 floats)… <oa> <ca> <ob> <cb> <p> <v>` → 6 floats
+* `c02conv <18 date floats> <nH> (a b)… <nE> (child parent 9 floats)… <nL> (child parent tnw gori 6 floats own 0|1 [18 date floats])… <a> <b>` → 18 floats (r block, b block)
+* `c02xf   <18 date floats> <nH> … <nE> … <nL> … <nCH> (a b)… <nCL> (child parent ori 6 floats)… <oa> <ca> <ob> <cb> <p> <v>` → 6 floats
 -/
 def handle : List String → Option String
   | "c02ser80" :: rest => some ((ser80 rest).getD "bad-op")
@@ -143,6 +171,7 @@ def handle : List String → Option String
   | "c02conv" :: rest => some ((conv rest).getD "bad-op")
   | "c02xf" :: rest => some ((xf rest).getD "bad-op")
   | "c02seq" :: rest => some ((seq rest).getD "bad-op")
+  | "c02nutc" :: rest => some ((nutc rest).getD "bad-op")
   | _ => none
 
 end BeyondVerif.Drv.C02
